@@ -31,7 +31,7 @@ PROPS = {
         ],
         "known_tests": [T("TestKnownC03", "fleet", 1, 1)],
         "assumptions": [
-            "application transactions commit only at the yield points of the sync loop (14 points, incl. between the end of each LS transaction and the following env.Info()); LMDB serialises writers, so a commit 'during' an LS write transaction is a commit right after it",
+            "application transactions commit at the yield points of the sync loop (14 points, incl. between the end of each LS transaction and the following env.Info()), while the loop waits for the write lock (held transactions), or right behind an LS transaction for whose lock they queued (started at a log statement of the running loop); windows that contain neither a yield point, a lock acquisition nor a log statement are only hit by chance",
             "native mode: remote timestamps never equal local ones (ties are C01/C02); an application overwrite is stamped later than what it overwrites",
             "shadow mode: the oracle is the reference mirror model (C11) driven by the commits and by the LS transactions that completed; remote stamps lie in the past of the shared clock; live empty values excluded (known finding)",
             "commits matching the listed known finding (transaction-id reuse after an LS write transaction that turned out empty) are deferred to the next yield point and counted",
